@@ -190,7 +190,7 @@ Proof.
     intros H. assert (t2 = t2') by (destruct (is_fin_acked t2'); destruct r; congruence). subst t2'.
     split; [assumption|left; congruence].
   - (* TimeWait *)
-    intros [= <- <-]. split.
+    destruct (c_fin (h_ctl h)); intros [= <- <-]; [|split; [apply stage_ok_refl|left; auto]]. split.
     + eapply stage_ok_trans; [apply stage_enqueue, tw_ack_plain|apply stage_set_tw].
     + left. cbn [set_time_wait st]. rewrite enqueue_st. auto.
 Qed.
